@@ -33,12 +33,12 @@ from lasio import HeaderItem
 
 HISTS_SCRATCH = ["scratch_append", "scratch_setdata"]
 HISTS_READ = ["read", "read_stop_far", "read_stop_tiny",
-              "idx_inplace_shift", "idx_inplace_last", "idx_rebound", "setdata_rebound", "idx_delcurve",
+              "idx_inplace_shift", "idx_inplace_last", "idx_rebound", "setdata_rebound", "setdata_crop_top", "idx_delcurve",
               "other_inplace", "other_rebound_int", "hdr_edit", "hdr_edit_sss", "hdr_edit_stop"]
 HISTS = HISTS_SCRATCH + HISTS_READ
 # histories for which the statement demands a truthful STRT/STOP/STEP in the output
 TRUTH_DEMANDED = {"scratch_append", "scratch_setdata", "read_stop_far", "read_stop_tiny", "idx_inplace_shift",
-                  "idx_inplace_last", "idx_rebound", "setdata_rebound", "idx_delcurve"}
+                  "idx_inplace_last", "idx_rebound", "setdata_rebound", "setdata_crop_top", "idx_delcurve"}
 NEEDS_OTHER_CURVE = {"idx_delcurve", "other_inplace", "other_rebound_int"}
 
 SHAPES = ["inc", "dec", "single", "irr", "big"]
@@ -245,6 +245,11 @@ def build(case, seed):
         new = want.copy()
         new[:, 0] = new[:, 0] - 3.5
         las.set_data(new)
+    elif hist == "setdata_crop_top":
+        # rows dropped at the top through set_data: the last sample still equals the header STOP, STRT (and nothing else) is stale
+        if n < 3:
+            raise SetupSkip("cropping needs at least three rows")
+        las.set_data(want[1:].copy())
     elif hist == "idx_delcurve":
         las.delete_curve(ix=0)
     elif hist == "other_inplace":
